@@ -1,5 +1,7 @@
 package main
 
+import "strings"
+
 var setterExceptions = map[string]string{
 	"msl/internal/codegen.Writer.writeEntryPointInputStruct:hasVaryings": "reset to false in writeEntryPoint's prologue (and on its early-exit path) before this function is called; the remaining path keeps that false",
 }
@@ -36,6 +38,18 @@ func propC17(c *Ctx, r *Report) {
 	r.Clauses = append(r.Clauses, accumClause)
 	c.runAccumLazyInit(r, "accum.lazyinit", func(string) bool { return true })
 	r.floor("accum.lazyinit", 4)
+	r.Clauses = append(r.Clauses, optionReadClause+" - binding maps, binding bases, entry-point selection and the other interface options")
+	for _, p := range []string{"spirv/internal/codegen", "msl/internal/codegen", "hlsl/internal/codegen", "glsl/internal/codegen"} {
+		c.runOptionRead(r, "option.read", p, func(f string) bool {
+			for _, w := range []string{"Binding", "EntryPoint", "Resource", "Sampler", "PushConstant", "SpecialConstants", "Interface", "Location", "Vertex", "Sizes", "PointSize", "Inline"} {
+				if strings.Contains(f, w) {
+					return true
+				}
+			}
+			return false
+		}, optionReadExceptions)
+	}
+	r.floor("option.read", 10)
 	r.floor("backends.Block.walkers", 10)
 	r.floor("setters", 2)
 }
